@@ -299,7 +299,18 @@ func (e *Engine) script(vc *VC, o *Obligation, extra []*Term, getValues []*Term)
 		st.walk(e, g, seen, nil)
 	}
 	var sb strings.Builder
-	sb.WriteString(e.header(st))
+	hdr := e.header(st)
+	if vc.Approx {
+		// quantifier-free candidate query: also drop the quantified built-in axioms of the header
+		var keep []string
+		for _, l := range strings.Split(hdr, "\n") {
+			if !strings.HasPrefix(l, "(assert (forall") {
+				keep = append(keep, l)
+			}
+		}
+		hdr = strings.Join(keep, "\n")
+	}
+	sb.WriteString(hdr)
 	for _, t := range terms {
 		sb.WriteString("(assert ")
 		t.write(&sb, nil)
